@@ -176,9 +176,10 @@ def _box_assume(box, t):
     if box is None:
         return
     lo, hi = tm.const(box[0]), tm.const(box[1])
+    strict = len(box) > 2 and box[2]
     for s in t.a.reshape(-1):
-        explore.assume(tm.ge(s.real().t, lo))
-        explore.assume(tm.le(s.real().t, hi))
+        explore.assume((tm.gt if strict else tm.ge)(s.real().t, lo))
+        explore.assume((tm.lt if strict else tm.le)(s.real().t, hi))
 
 
 def job_module(cfg):
@@ -200,7 +201,9 @@ def job_module(cfg):
             # assumptions of the case (for x) do not apply
             for a in (list(case.assume(params, x)) if case.assume else []):
                 explore.assume(a)
-        with stubs.torch_patches():
+        from nflows.transforms import nonlinearities as _NL
+
+        with stubs.torch_patches(), stubs.patched((_NL, "np", stubs.NpProxy())):
             fwd = (lambda z: m(z, ctx) if ctx is not None else m(z))
             inv = (lambda z: m.inverse(z, ctx) if ctx is not None else m.inverse(z))
             first, second = (fwd, inv) if order in ("if", "f") else (inv, fwd)
@@ -375,10 +378,12 @@ def replay_entry(kernel, signature, relation, leaves):
 
 def job(cfg):
     sc.DEFINE_SQRT_QUOTIENTS[0] = True
+    sc.MINMAX_FORK[0] = cfg["type"] == "module" and cfg["case"].split("/")[0] in ("Sigmoid", "Logit")
     try:
         return job_spline(cfg) if cfg["type"] == "spline" else job_module(cfg)
     finally:
         sc.DEFINE_SQRT_QUOTIENTS[0] = False
+        sc.MINMAX_FORK[0] = False
 
 
 SKIP_INVERSE = ("BatchNorm",)  # eval-mode inverse exists; kept. (placeholder for transforms without inverse)
@@ -406,7 +411,14 @@ def configs(tier):
                     cfgs.append({"type": "spline", "kind": kind, "K": K, "mode": mode, "box": box, "order": order, "timeout": t, "decide_timeout": 8 if tier == "quick" else 30})
     for c in CS.cases_for(tier):
         spline_based = "Piecewise" in c.name or "CompositeCDF" in c.name
-        if "PiecewiseCubic" in c.name:
+        if "PiecewiseCubic" in c.name or ("PiecewiseQuadratic" in c.name and tier == "quick"):
+            # the quadratic inverse's discriminant obligation takes ~1 min per feature even at function level
+            orders = ("f",)
+        elif c.name.startswith("SqueezeTransform"):
+            orders = ("f", "if")  # the stand-alone inverse needs an input of the squeezed shape; covered by "if"
+        elif c.name.startswith("LogTanh"):
+            orders = ("f",)  # exp/log atoms with enclosed constants: the inverse's path conditions are undecided by nlsat
+        elif spline_based and tier == "quick" and not ("K=1" in c.name or "Coupling/K=2" in c.name):
             orders = ("f",)
         elif spline_based:
             # the round trip of the spline *functions* is decided above; the modules only route parameters to them
